@@ -149,6 +149,57 @@ def o_value(spec):
     return {"classes": ["shape:" + s for s in sh], "nontrivial": bool(sh & {"sub", "div", "sqrt", "pow"})}
 
 
+BIG = [2 ** 53 + 1, 2 ** 53 + 3, 10 ** 17 + 1, 2 ** 64 + 3, -(2 ** 53 + 1), 3 ** 40, 2 ** 53 - 1, 2 ** 53, 10 ** 22 + 7]
+
+
+def int_trees(max_leaves):
+    """Integer-only polynomial trees (symbols, small and very large integer literals, + - *, small integer powers, and a
+    symbol raised to a very large integer): every value at an integer assignment is an exact integer, so 'the same
+    number' is decided exactly, with no tolerance that could hide a literal rounded through a double."""
+    name = st.sampled_from(NAMES).map(lambda n: ["sym", n])
+    big = st.sampled_from(BIG).map(lambda k: ["int", k])
+    lf = st.one_of(name, name, big, big, st.sampled_from([-3, -1, 2, 5, 7]).map(lambda k: ["int", k]),
+                   st.builds(lambda n, k: ["**", n, k], name, big))
+
+    def ext(ch):
+        return st.one_of(
+            st.builds(lambda a, b: ["+", a, b], ch, ch),
+            st.builds(lambda a, b: ["-", a, b], ch, ch),
+            st.builds(lambda a, b: ["*", a, b], ch, ch),
+            st.builds(lambda a, k: ["**", a, ["int", k]], ch, st.sampled_from([2, 3])),
+            st.builds(lambda a: ["neg", a], ch),
+        )
+    return st.recursive(lf, ext, max_leaves=max_leaves)
+
+
+@st.composite
+def exact_cases(draw, tier):
+    return {"e": draw(int_trees(6 if tier == "quick" else 12)),
+            "vals": [[draw(st.sampled_from([1, -1])) for _ in NAMES] for _ in range(3)]}
+
+
+def o_exact(spec):
+    from orquestra.quantum.circuits.symbolic.sympy_expressions import SYMPY_DIALECT, expression_from_sympy
+    from orquestra.quantum.circuits.symbolic.translations import translate_expression
+
+    e = cgen._sx(spec["e"])
+    t = must(lambda: expression_from_sympy(e), f"expression_from_sympy({e})")
+    back = must(lambda: translate_expression(t, SYMPY_DIALECT), "translate_expression")
+    syms = [sympy.Symbol(n) for n in NAMES]
+    for row in spec["vals"]:
+        vals = {s: sympy.Integer(v) for s, v in zip(syms, row)}
+        a = sympy.sympify(e).xreplace(vals)
+        b = must(lambda: sympy.sympify(back).xreplace(vals), "evaluating the translated expression")
+        require(a.is_Integer, lambda: f"harness: {e} not an integer at {row}")
+        same = b.is_number and (sympy.Rational(b) if b.is_Float else b) == a
+        require(bool(same), lambda: f"{e} translated to {back}: exact values {a} vs {b} at {dict((str(k), int(v)) for k, v in vals.items())}")
+    lits = [abs(int(i)) for i in sympy.sympify(e).atoms(sympy.Integer)]
+    bigs = [i for i in lits if i > 2 ** 53]
+    return {"classes": (["literal>2**53"] if bigs else []) + (["literal>2**64"] if any(i > 2 ** 64 for i in lits) else [])
+            + (["big_exponent"] if any(isinstance(p.exp, sympy.Integer) and abs(int(p.exp)) > 2 ** 53 for p in sympy.sympify(e).atoms(sympy.Pow)) else []),
+            "nontrivial": bool(bigs) and bool(getattr(e, "free_symbols", None))}
+
+
 UNSUPPORTED = ["log", "Abs", "acos", "pi", "E", "Max", "Piecewise", "Derivative", "atan", "sinh", "conjugate", "re", "GoldenRatio", "f", "asin", "cosh"]
 
 
@@ -276,6 +327,8 @@ SUBCHECKS = [
              rule="a tree holding a construct outside the supported set is refused with an exception"),
     SubCheck("natural_order", o_names, strategy=name_cases, examples=(800, 5000), shards=(2, 6),
              rule="sorted(key=natural_key) == independent tokenising comparator; revlex = reversed key"),
+    SubCheck("exact_integers", o_exact, strategy=exact_cases, examples=(300, 3000), shards=(2, 6), fork_timeout=30,
+             rule="integer-only trees with literals/exponents beyond 2**53 at +-1 assignments: exact integer equality, no tolerance"),
 ]
 
 
@@ -293,6 +346,7 @@ def o_fuzz(spec):
     return run_campaign(spec)
 
 
+SUBCHECKS[3].expected_classes = ["literal>2**53", "literal>2**64", "big_exponent"]
 SUBCHECKS.append(SubCheck("atheris_expr", o_fuzz, enumerate=_campaigns, shards=(1, 2), tiers=("thorough",), timeout=(600, 3000),
                           rule="coverage-guided (Atheris/libFuzzer) campaigns, empty and seeded corpus: bytes -> grammar choices -> same value oracle"))
 SUBCHECKS[0].expected_classes = ["shape:" + s for s in ["add", "mul", "sub", "div", "pow", "sqrt", "sin", "cos", "exp", "tan"]]
